@@ -73,7 +73,9 @@ def augment_exception_message_and_reraise(exception, message):
         if base.__module__ == 'builtins'):
       try:
         candidate = base.__new__(ExceptionProxy, *exception.args)
-      except TypeError:
+      except Exception:  # pylint: disable=broad-except
+        # (Mostly a TypeError for the wrong number of arguments, but a user
+        # `__new__` may reject `args` with whatever it validates them with.)
         continue
       if isinstance(candidate, ExceptionProxy):
         proxy = candidate
